@@ -687,7 +687,12 @@ pub fn run_scenario(sc: &Value) -> Value {
                         // the terminal closes every exchange during construction: the client ends up without a connection
                         term.lock().unwrap_or_else(|e| e.into_inner()).default_plan = json!({"o": "ok", "fault": {"pos": 1, "kind": "close"}});
                     }
-                    if let Ok(x) = Feig::new(config.clone()).await {
+                    let constructed = {
+                        use futures::FutureExt;
+                        std::panic::AssertUnwindSafe(Feig::new(config.clone())).catch_unwind().await
+                    };
+                    let panicked = constructed.is_err();
+                    if let Ok(Ok(x)) = constructed {
                         f = Some(x);
                     }
                     term.lock().unwrap_or_else(|e| e.into_inner()).default_plan = sc["plan"].get("default").cloned().unwrap_or(json!({"o": "ok"}));
@@ -697,6 +702,15 @@ pub fn run_scenario(sc: &Value) -> Value {
                     t.events.truncate(saved.2);
                     let nc = if sc.get("start").and_then(|s| s.as_str()) == Some("disconnected") { 0 } else { t.next_conn };
                     t.log(json!({"e": "constructed", "conn": nc}));
+                    if panicked {
+                        // the construction itself panicked (its configure call): the scenario ends there, as a panicking call
+                        t.log(json!({"e": "panic", "op": "configure", "text": "panic while constructing the client"}));
+                    } else if f.is_none() {
+                        t.log(json!({"e": "harness-error", "text": "the client could not be constructed"}));
+                    }
+                }
+                if f.is_none() {
+                    break;
                 }
                 feig = f;
             }
